@@ -264,6 +264,47 @@ theorem model_holds_rat (ax : Axis) (self : Table Rat) (others : List (Table Rat
   model_holds ax self others hwf
 
 
+/-- **Other-axis metadata.** An other-axis ID that the receiver has keeps the receiver's entry
+(empty if the receiver has no metadata there, whatever later operands carry); an ID it lacks gets
+the entry of the first later operand that has it. -/
+theorem concat_other_md [Zero α] (ax : Axis) (self : Table α) (others : List (Table α))
+    (hwf : OpsWF (self :: others)) (r : Table α) (h : concatAll ax self others = .ok r)
+    (b : Id) (hb : b ∈ r.ids ax.other) :
+    mdEntry r ax.other b =
+      if b ∈ self.ids ax.other then mdEntry self ax.other b
+      else match others.find? (fun t => (t.ids ax.other).contains b) with
+        | some t => mdEntry t ax.other b
+        | none => [] := by
+  obtain ⟨R, rfl, hR, _, _, _, _, _, _, _, _⟩ := concat_spec ax self others hwf r h
+  rw [tableOf_oids] at hb
+  obtain ⟨first, hs, ho⟩ := concatViews_omd (viewOf ax self) (others.map (viewOf ax))
+    (by simpa using viewsWF_of_ops ax _ hwf) R (by simpa using hR)
+  have hbridge : mdEntry (tableOf ax self.ttype R) ax.other b =
+      (R.omd.bind (fun m => lookupBy R.oids m b)).getD [] := by cases ax <;> rfl
+  rw [hbridge, ho, normMd_lookup, lookupBy_map _ _ _ hb]
+  simp only [Option.getD_some]
+  rw [← viewOf_oids]
+  by_cases hbs : b ∈ (viewOf ax self).oids
+  · simp only [hbs, if_true]
+    rw [padEntry_self first _ b hbs, entryOf_viewOf]
+  · simp only [hbs, if_false]
+    unfold padEntry
+    simp only [hbs, if_false]
+    rw [scan_lookup _ [] [] first hs b]
+    have hc : (viewOf ax self).oids.contains b = false := by simpa using hbs
+    simp only [List.map_nil, List.not_mem_nil, if_false, List.find?_cons, hc, List.find?_map]
+    cases hf : others.find? ((fun v => v.oids.contains b) ∘ viewOf ax) with
+    | none =>
+      have : others.find? (fun t => (t.ids ax.other).contains b) = none := by
+        rw [← hf]; congr 1; funext t; simp [viewOf_oids]
+      rw [this]; rfl
+    | some t =>
+      have : others.find? (fun t => (t.ids ax.other).contains b) = some t := by
+        rw [← hf]; congr 1; funext t; simp [viewOf_oids]
+      rw [this]
+      simp [entryOf_viewOf]
+
+
 /-! ### decidable form of the hypotheses -/
 
 theorem WF_of_wfb [DecidableEq α] (t : Table α) (h : t.wfb = true) : t.WF := by
